@@ -202,12 +202,12 @@ def build(ctx):
     outs = ctx.check_outcomes(eng.run(names['new'], [nameref, skref, cfgref], st), 'new')
     for i, o in enumerate(outs):
         if o.kind == 'panic':
-            ctx.prop('new/p%d/no-panic' % i, o.state.pc, z3.BoolVal(True), [], None, twin=False)
+            ctx.prop('new/p%d/no-panic' % i, o.state.pc, z3.BoolVal(True), [], replay_first_line(rp), twin=False)
             continue
         f = o.value.items
         post = z3.And(f[fi['line_len']].e == 0, f[fi['cur_line']].e == 1, z3.Not(f[fi['last_was_space']]), z3.Not(f[fi['current_line_contains_string_literal']]),
                       f[fi['format_line']] == sel(z3.BitVecVal(1, 64)), f[fi['newline_count']].e == 0, z3.BoolVal(len(f[fi['errors']].items) == 0))
-        ctx.prop('new/p%d/establishes-invariant' % i, o.state.pc, z3.Not(post), [], None)
+        ctx.prop('new/p%d/establishes-invariant' % i, o.state.pc, z3.Not(post), [], replay_first_line(rp))
 
     # ------------------------------------------------------------ track_errors: both line diagnostics make the run fail (exit status via C06)
     track = eng.find('track_errors', self_ty='FormatReport', file='src/lib.rs')
@@ -281,6 +281,7 @@ def skipped_range_recording(ctx):
     for k in (1, 2) if ctx.tier == 'quick' else (0, 1, 2, 3):
         eng.stubs = []
         eng.lenient = True
+        eng.usize_bound = LIM       # line counts and positions are u32-sized in the source map
         eng.inline_only = [re.compile(r'push_skipped_with_span')]
         posmemo.clear()
         st = State()
@@ -322,7 +323,7 @@ def skipped_range_recording(ctx):
             label = 'skipped-range/visitor/attrs=%d/p%d' % (k, pi)
             if o.kind != 'ret':
                 # the two `+ 1` overflow asserts are unreachable under the geometry
-                ctx.prop(label + '/no-panic', o.state.pc + geom, z3.BoolVal(True), [], None, twin=False)
+                ctx.prop(label + '/no-panic', o.state.pc + geom, z3.BoolVal(True), [], replay_skipped_visitor, twin=False)
                 continue
             pp = pushed_pairs(o.state)
             if len(pp) != 1:
@@ -371,6 +372,7 @@ def skipped_range_recording(ctx):
         ctx.prop(label + '/range-is-in-output-lines', o.state.pc + geom, z3.Or(lo != m_lo + D, hi != m_hi + D), [D], replay_skipped_macro, classes=cls)
     if nrec == 0:
         ctx.inconclusive.append('skipped-range/macro-fallback: no path records a range')
+    eng.usize_bound = None
     eng.stubs = []
     eng.lenient = False
     eng.inline_only = None
@@ -439,7 +441,17 @@ def replay_skipped_visitor(model, r):
         want = [wide[1]]
         if rep != want:
             findings.append('source lines before the skipped item: %d, output lines: %d -> too wide lines reported %r, expected %r (line %d is skipped code)' % (s, o, rep, want, wide[0]))
-    return {'reproduced': bool(findings), 'detail': findings}
+        # (c) a skipped statement with the attribute on its own line, directly followed by a too wide statement that must be reported
+        for nattr in (1, 2):
+            attrs = '    #[rustfmt::skip]\n' + ('    #[allow(unused)]\n' if nattr == 2 else '')
+            src = pre + 'fn b() {\n' + attrs + '    let v = "%s";\n    let w = "%s";\n    let z = 1;\n}\n' % (LONG, LONG)
+            out, rep, rc = _run_rustfmt(src)
+            wide = [i + 1 for i, ln in enumerate(out) if len(ln) > 100]
+            if len(wide) != 2 or wide[1] != wide[0] + 1:
+                continue
+            if rep != [wide[1]]:
+                findings.append('skipped statement under %d attribute lines (%d source / %d output lines above): too wide lines reported %r, expected %r' % (nattr, s, o, rep, [wide[1]]))
+    return {'reproduced': bool(findings), 'detail': findings[:6]}
 
 
 def replay_skipped_macro(model, r):
@@ -602,6 +614,22 @@ def make_replay(ctx, rp, what):
                                 if len(findings) >= 3:
                                     return {'reproduced': True, 'detail': findings, 'texts_tried': tried}
         return {'reproduced': bool(findings), 'detail': findings, 'texts_tried': tried}
+    return replay
+
+
+def replay_first_line(rp):
+    """the scanner's initial state decides line 1: selected or not, nothing seen yet"""
+    def replay(model, r):
+        findings = []
+        for text, fl, want in (('a \nb\n', (2, 2), []), ('a \nb\n', (1, 1), [1]), ('a\nb \n', (1, 1), []), ('a \nb \n', None, [1, 2])):
+            req = {'op': 'format_lines_scan', 'text': text, 'max_width': 100, 'tab_spaces': 4, 'error_on_unformatted': True, 'error_on_line_overflow': True, 'skipped': []}
+            if fl:
+                req['file_lines'] = '[{"file":"stdin","range":[%d,%d]}]' % fl
+            res = rp.call(req)
+            got = sorted(e[0] for e in res.get('errors', []) if e[1] == 1)
+            if got != want:
+                findings.append('text %r selection %r: trailing-blank reports on lines %r, expected %r' % (text, fl, got, want))
+        return {'reproduced': bool(findings), 'detail': findings}
     return replay
 
 
